@@ -267,7 +267,14 @@ theorem fwgLoop_sound (n p0 q0 bound : Nat) : ∀ (l : List (Nat × Nat × Nat))
   | (_, u, v) :: rest, fs, h => by
     unfold fwgLoop at h
     split at h
-    · exact fwgFinish_sound _ _ _ _ h
+    · split at h
+      · rename_i fs' hf
+        simp only [Option.some.injEq] at h
+        subst h
+        exact fwgFinish_sound _ _ _ _ hf
+      · split at h
+        · simp at h
+        · exact fwgLoop_sound n p0 q0 bound rest fs h
     · exact fwgLoop_sound n p0 q0 bound rest fs h
 
 theorem factorWithGuess_sound (n p0 cbrt : Nat) (fs : List Nat)
